@@ -204,7 +204,7 @@ theorem handedOf_le_passed (p : SPc) : handedOf p ≠ 0 → passed p = true := b
 
 theorem next_pc (held : Bool) (p : List Cmd) :
     (next held p).1 = .fin ∨ (next held p).1 = .casLoad ∨ (next held p).1 = .doneLoad ∨
-    (next held p).1 = .pop := by
+    (next held p).1 = .doneLoadW ∨ (next held p).1 = .pop := by
   fun_induction next held p <;> simp_all
 
 theorem next_nostop (held : Bool) (p : List Cmd) (h : p.contains .stop = false) :
